@@ -622,6 +622,9 @@ def _elementwise(name):
     def f(x, *a, **k):
         if isinstance(x, (SR, SC, SAngle, S.SImAngle)):
             return getattr(x, name)(*[lift_strict(y) for y in a])
+        if name == "sqrt" and isinstance(x, (builtins.int, builtins.float, _np.integer, _np.floating)) \
+                and not isinstance(x, builtins.bool) and x >= 0:
+            return S.sqrt(lift_strict(x))     # exact algebraic constant instead of its double
         return uf(x, *a, **k)
     f.__name__ = name
     return f
